@@ -75,7 +75,7 @@ def oracle_select(X, y, feats, dtype, n_best, thresh_corr, measure, thresh_nan=0
             v = measure(x, y)
         except Exception:
             continue
-        if v is None or (isinstance(v, float) and math.isnan(v)): continue
+        if v is None or (isinstance(v, float) and (math.isnan(v) or math.isinf(v))): continue          # undefined (an infinite statistic: feature constant over its observed rows)
         vals[f] = v
     ranked = sorted(vals, key=lambda f: -vals[f])
     amb = any(abs(vals[a] - vals[b]) < 1e-12 for a, b in zip(ranked, ranked[1:]))
